@@ -9,6 +9,7 @@ mod driver;
 mod lsp;
 mod lsp_oracles;
 mod pool;
+mod proc_check;
 mod prng;
 mod seam;
 mod world;
